@@ -12,6 +12,15 @@
 
 using namespace std;
 
+#ifdef PHOSG_VERIF
+// Verification hook (compiled only with -DPHOSG_VERIF): reports every 64-byte
+// block handed to a compression function (alg: 0 = MD5, 1 = SHA1, 2 = SHA256)
+extern "C" void verif_hash_block(int alg, const void* block);
+#define PHOSG_VERIF_HASH_BLOCK(alg, block) verif_hash_block((alg), (block))
+#else
+#define PHOSG_VERIF_HASH_BLOCK(alg, block)
+#endif
+
 namespace phosg {
 
 // clang-format off
@@ -121,6 +130,7 @@ MD5::MD5(const void* data, size_t size) {
         0x6FA87E4F, 0xFE2CE6E0, 0xA3014314, 0x4E0811A1,
         0xF7537E82, 0xBD3AF235, 0x2AD7D2BB, 0xEB86D391};
     // clang-format on
+    PHOSG_VERIF_HASH_BLOCK(0, block);
     const le_uint32_t* fields = reinterpret_cast<const le_uint32_t*>(block);
 
     uint32_t a = this->a0, b = this->b0, c = this->c0, d = this->d0;
@@ -196,6 +206,7 @@ SHA1::SHA1(const void* data, size_t size) {
   this->h[4] = 0xC3D2E1F0;
 
   auto process_block = [this](const void* block) -> void {
+    PHOSG_VERIF_HASH_BLOCK(1, block);
     uint32_t extended_fields[80];
     memcpy(extended_fields, block, 0x40);
 #ifdef PHOSG_LITTLE_ENDIAN
@@ -306,6 +317,7 @@ SHA256::SHA256(const void* data, size_t size) {
   // clang-format on
 
   auto process_block = [this](const void* data) {
+    PHOSG_VERIF_HASH_BLOCK(2, data);
     uint32_t w[64];
     memcpy(w, data, 0x40);
 #ifdef PHOSG_LITTLE_ENDIAN
